@@ -41,6 +41,7 @@ CONSTANTS Nodes,        \* node names
           MaxTop,       \* bound: netstore.Get calls per behaviour
           MaxSettle,    \* bound: Settle steps per behaviour
           RouteLists,   \* the route lists a call may get (sequences of <<link, target>>)
+          Requesters,   \* the nodes that call netstore.Get
           Concurrent,   \* BOOLEAN: calls of different nodes may overlap
           Timeouts      \* BOOLEAN: the 10 s ticker of RetrieveChunk may fire
 
@@ -52,9 +53,10 @@ VARIABLES has,      \* [Nodes -> SUBSET Chunks]   valid copies in the local stor
           payreq,   \* [Nodes -> [Nodes -> Int]]  payment requests issued (Pay calls)
           calls,    \* sequence of call records
           atts,     \* sequence of attempt (= stream) records
-          nfaults, nsettle
+          nfaults, nsettle, ntop,
+          base      \* [has, spent] when the finished calls were last forgotten (see Start)
 
-vars == <<has, known, unpaid, spent, net, payreq, calls, atts, nfaults, nsettle>>
+vars == <<has, known, unpaid, spent, net, payreq, calls, atts, nfaults, nsettle, ntop, base>>
 
 NoFault == "none"
 
@@ -104,23 +106,30 @@ Init == /\ has = Holder0
         /\ net = [n \in Nodes |-> [p \in Nodes |-> 0]]
         /\ payreq = [n \in Nodes |-> [p \in Nodes |-> 0]]
         /\ calls = <<>> /\ atts = <<>>
-        /\ nfaults = 0 /\ nsettle = 0
+        /\ nfaults = 0 /\ nsettle = 0 /\ ntop = 0
+        /\ base = [has |-> Holder0, spent |-> [n \in Nodes |-> 0]]
 
 (***************************************************************************)
 (* Client side.                                                            *)
 (***************************************************************************)
-\* netstore.Get(ctx{root, targets}, ModeGetRequest, c)
+\* netstore.Get(ctx{root, targets}, ModeGetRequest, c).  When the calls do not overlap, the records of the
+\* finished calls and attempts (history, only read by the invariants, which have been checked on them) are
+\* forgotten here and the invariants continue relative to `base`.
 Start(n, c, rs) ==
-  /\ Cardinality(TopCalls) < MaxTop
+  /\ ntop < MaxTop
+  /\ n \in Requesters
   /\ ~Busy(n)
   /\ Concurrent \/ Quiet
-  /\ \A i \in 1..Len(rs) : rs[i][1] # n
-  /\ LET base == NewCall(n, c, rs, 2, 0)
-         call == IF c \in has[n] THEN [base EXCEPT !.pc = "done", !.res = "ok", !.local = TRUE]
-                 ELSE IF rs = <<>> THEN [base EXCEPT !.pc = "done", !.res = "err"]
-                 ELSE base
-     IN calls' = Append(calls, call)
-  /\ UNCHANGED <<has, known, unpaid, spent, net, payreq, atts, nfaults, nsettle>>
+  /\ \A i \in 1..Len(rs) : rs[i][1] # n /\ rs[i][2] # n
+  /\ ntop' = ntop + 1
+  /\ LET b0 == NewCall(n, c, rs, 2, 0)
+         call == IF c \in has[n] THEN [b0 EXCEPT !.pc = "done", !.res = "ok", !.local = TRUE]
+                 ELSE IF rs = <<>> THEN [b0 EXCEPT !.pc = "done", !.res = "err"]
+                 ELSE b0
+     IN IF Concurrent
+        THEN calls' = Append(calls, call) /\ atts' = atts /\ base' = base
+        ELSE calls' = <<call>> /\ atts' = <<>> /\ base' = [has |-> has, spent |-> spent]
+  /\ UNCHANGED <<has, known, unpaid, spent, net, payreq, nfaults, nsettle>>
 
 \* the loop body of RetrieveChunk / RetrieveChunkFromNode: go retrieveChunk(route)
 Pick(k) ==
@@ -128,7 +137,7 @@ Pick(k) ==
   /\ LET r == calls[k].routes[calls[k].idx]
      IN atts' = Append(atts, NewAtt(k, calls[k].node, r[1], r[2], calls[k].chunk))
   /\ calls' = [calls EXCEPT ![k].pc = "wait", ![k].natt = @ + 1]
-  /\ UNCHANGED <<has, known, unpaid, spent, net, payreq, nfaults, nsettle>>
+  /\ UNCHANGED <<has, known, unpaid, spent, net, payreq, nfaults, nsettle, ntop, base>>
 
 \* accounting.Reserve(link, 256)
 Reserve(a) ==
@@ -138,7 +147,7 @@ Reserve(a) ==
          ok == ReserveOK(av, unpaid[n][p])
      IN atts' = [atts EXCEPT ![a].cpc = IF ok THEN "open" ELSE "fail", ![a].resv = ok,
                              ![a].availAt = av, ![a].unpaidAt = unpaid[n][p]]
-  /\ UNCHANGED <<has, known, unpaid, spent, net, payreq, calls, nfaults, nsettle>>
+  /\ UNCHANGED <<has, known, unpaid, spent, net, payreq, calls, nfaults, nsettle, ntop, base>>
 
 \* streamer.NewStream + write RequestChunk; the network picks what will go wrong on this stream
 Open(a, f) ==
@@ -148,7 +157,7 @@ Open(a, f) ==
   /\ atts' = IF f = "noconn"
              THEN [atts EXCEPT ![a].cpc = "fail", ![a].fault = f]
              ELSE [atts EXCEPT ![a].cpc = "await", ![a].fault = f, ![a].opened = TRUE, ![a].spc = "get"]
-  /\ UNCHANGED <<has, known, unpaid, spent, net, payreq, calls, nsettle>>
+  /\ UNCHANGED <<has, known, unpaid, spent, net, payreq, calls, nsettle, ntop, base>>
 
 \* read the delivery (or the reset of the stream); cac.Valid || soc.Valid
 Recv(a) ==
@@ -159,7 +168,7 @@ Recv(a) ==
      \/ /\ \/ atts[a].written /\ atts[a].lost
            \/ ~atts[a].written /\ atts[a].spc = "fail"
         /\ atts' = [atts EXCEPT ![a].got = "err", ![a].cpc = "fail"]
-  /\ UNCHANGED <<has, known, unpaid, spent, net, payreq, calls, nfaults, nsettle>>
+  /\ UNCHANGED <<has, known, unpaid, spent, net, payreq, calls, nfaults, nsettle, ntop, base>>
 
 \* accounting.Credit(link, 256)
 Credit(a) ==
@@ -169,7 +178,7 @@ Credit(a) ==
         /\ spent' = [spent EXCEPT ![n] = @ + 1]
         /\ payreq' = IF PayDue(Thr, unpaid[n][p] + 1) THEN Bump(payreq, n, p) ELSE payreq
   /\ atts' = [atts EXCEPT ![a].cpc = "ciret", ![a].credited = @ + 1]
-  /\ UNCHANGED <<has, known, net, calls, nfaults, nsettle>>
+  /\ UNCHANGED <<has, known, net, calls, nfaults, nsettle, ntop, base>>
 
 \* chunkinfo.OnChunkRetrieved: registers the file (pyramid from the link node) when unknown
 CiRetrieved(a) ==
@@ -180,14 +189,14 @@ CiRetrieved(a) ==
              /\ atts' = [atts EXCEPT ![a].cpc = "put"]
         ELSE /\ known' = known
              /\ atts' = [atts EXCEPT ![a].cpc = "fail"]
-  /\ UNCHANGED <<has, unpaid, spent, net, payreq, calls, nfaults, nsettle>>
+  /\ UNCHANGED <<has, unpaid, spent, net, payreq, calls, nfaults, nsettle, ntop, base>>
 
 \* storer.Put(ModePutRequest) under the file context
 Put(a) ==
   /\ atts[a].cpc = "put"
   /\ has' = [has EXCEPT ![atts[a].cli] = @ \cup {atts[a].chunk}]
   /\ atts' = [atts EXCEPT ![a].cpc = "ok"]
-  /\ UNCHANGED <<known, unpaid, spent, net, payreq, calls, nfaults, nsettle>>
+  /\ UNCHANGED <<known, unpaid, spent, net, payreq, calls, nfaults, nsettle, ntop, base>>
 
 \* what the loop does after a failed route (also after the ticker fired)
 Advance(cl) ==
@@ -204,7 +213,7 @@ Report(a) ==
                     ELSE IF atts[a].cpc = "ok" THEN [calls EXCEPT ![k].pc = "done", ![k].res = "ok"]
                     ELSE [calls EXCEPT ![k] = Advance(@)]
   /\ atts' = [atts EXCEPT ![a].reported = TRUE]
-  /\ UNCHANGED <<has, known, unpaid, spent, net, payreq, nfaults, nsettle>>
+  /\ UNCHANGED <<has, known, unpaid, spent, net, payreq, nfaults, nsettle, ntop, base>>
 
 \* the retry ticker fires while the attempt is still running: next route, the attempt goes on
 Timeout(k) ==
@@ -212,7 +221,7 @@ Timeout(k) ==
   /\ calls[k].pc = "wait"
   /\ \E a \in AttsOf(k) : ~atts[a].reported /\ atts[a].cpc \notin {"ok", "fail"}
   /\ calls' = [calls EXCEPT ![k] = Advance(@)]
-  /\ UNCHANGED <<has, known, unpaid, spent, net, payreq, atts, nfaults, nsettle>>
+  /\ UNCHANGED <<has, known, unpaid, spent, net, payreq, atts, nfaults, nsettle, ntop, base>>
 
 (***************************************************************************)
 (* Server side (handler of the stream opened by attempt a).                *)
@@ -229,14 +238,14 @@ SrvGet(a) ==
              /\ calls' = calls
         ELSE /\ calls' = Append(calls, NewCall(s, c, <<<<atts[a].tgt, atts[a].tgt>>>>, 1, a))
              /\ atts' = [atts EXCEPT ![a].spc = "fwd", ![a].child = Len(calls) + 1]
-  /\ UNCHANGED <<has, known, unpaid, spent, net, payreq, nfaults, nsettle>>
+  /\ UNCHANGED <<has, known, unpaid, spent, net, payreq, nfaults, nsettle, ntop, base>>
 
 \* RetrieveChunkFromNode returned
 SrvFwdDone(a) ==
   /\ atts[a].spc = "fwd"
   /\ calls[atts[a].child].pc = "done"
   /\ atts' = [atts EXCEPT ![a].spc = IF calls[atts[a].child].res = "ok" THEN "write" ELSE "fail"]
-  /\ UNCHANGED <<has, known, unpaid, spent, net, payreq, calls, nfaults, nsettle>>
+  /\ UNCHANGED <<has, known, unpaid, spent, net, payreq, calls, nfaults, nsettle, ntop, base>>
 
 \* write the delivery
 SrvWrite(a) ==
@@ -245,7 +254,7 @@ SrvWrite(a) ==
              THEN [atts EXCEPT ![a].spc = "fail"]
              ELSE [atts EXCEPT ![a].spc = "debit", ![a].written = TRUE, ![a].dlv = DlvClass(atts[a].fault),
                                ![a].lost = (atts[a].fault = "lose")]
-  /\ UNCHANGED <<has, known, unpaid, spent, net, payreq, calls, nfaults, nsettle>>
+  /\ UNCHANGED <<has, known, unpaid, spent, net, payreq, calls, nfaults, nsettle, ntop, base>>
 
 \* accounting.Debit(peer, 256); refusal resets the stream (an unread delivery may die with it)
 SrvDebit(a) ==
@@ -259,13 +268,13 @@ SrvDebit(a) ==
                                           ![a].lost = @ \/ kill]
         ELSE /\ net' = Bump(net, s, p)
              /\ atts' = [atts EXCEPT ![a].spc = "xfer", ![a].debits = @ + 1, ![a].recorded = @ + 1]
-  /\ UNCHANGED <<has, known, unpaid, spent, payreq, calls, nfaults, nsettle>>
+  /\ UNCHANGED <<has, known, unpaid, spent, payreq, calls, nfaults, nsettle, ntop, base>>
 
 \* chunkinfo.OnChunkTransferred (the server knows the file: it holds the chunk)
 SrvTransferred(a) ==
   /\ atts[a].spc = "xfer"
   /\ atts' = [atts EXCEPT ![a].spc = "done"]
-  /\ UNCHANGED <<has, known, unpaid, spent, net, payreq, calls, nfaults, nsettle>>
+  /\ UNCHANGED <<has, known, unpaid, spent, net, payreq, calls, nfaults, nsettle, ntop, base>>
 
 (***************************************************************************)
 (* Settlement: a cheque over everything n owes p is issued and reaches p.  *)
@@ -277,7 +286,7 @@ Settle(n, p) ==
   /\ nsettle' = nsettle + 1
   /\ net' = [net EXCEPT ![p][n] = @ - unpaid[n][p]]
   /\ unpaid' = [unpaid EXCEPT ![n][p] = 0]
-  /\ UNCHANGED <<has, known, spent, payreq, calls, atts, nfaults>>
+  /\ UNCHANGED <<has, known, spent, payreq, calls, atts, nfaults, ntop, base>>
 
 Next == \/ \E n \in Nodes, c \in Chunks, rs \in RouteLists : Start(n, c, rs)
         \/ \E k \in CallIds : Pick(k) \/ Timeout(k)
@@ -312,7 +321,7 @@ Accepted(a) == atts[a].got = "valid"          \* a valid delivery was read by th
 \* P1: a chunk is stored, or returned, only after a valid delivery
 P1_StoredOnlyAfterValidDelivery ==
   /\ \A a \in AttIds : atts[a].cpc \in {"put", "ok"} => Accepted(a)
-  /\ \A n \in Nodes : \A c \in has[n] \ Holder0[n] :
+  /\ \A n \in Nodes : \A c \in has[n] \ base.has[n] :
         \E a \in AttIds : atts[a].cli = n /\ atts[a].chunk = c /\ Accepted(a) /\ atts[a].cpc = "ok"
   /\ \A k \in CallIds : calls[k].res = "ok" =>
         \/ calls[k].local /\ calls[k].chunk \in has[calls[k].node]
@@ -329,7 +338,7 @@ P2_CreditedOncePerAcceptedDelivery ==
 
 \* the requester's books are the credits
 P2_BooksAreCredits ==
-  \A n \in Nodes : spent[n] = Cardinality({a \in AttIds : atts[a].cli = n /\ atts[a].credited = 1})
+  \A n \in Nodes : spent[n] = base.spent[n] + Cardinality({a \in AttIds : atts[a].cli = n /\ atts[a].credited = 1})
 
 \* P3: the server debits exactly the peers it served, once per delivery
 P3_DebitedOncePerDelivery ==
